@@ -87,8 +87,11 @@ Example all_counts_nontrivial :
   /\ open_case (Transits 17 false) (mkSk SEQ 0 6 EMM true false true true false true) = false
   /\ refines_proved (Transits 12 false) (mkSk ZO 0 9 EMM false false true false true true) = true
   /\ refines_proved (Transits 1 true) (mkSk INST 0 9 EMM true false true false true true) = true
-  /\ refines_proved (Transits 2 true) (mkSk INST 0 9 EMM true false true false true true) = false
+  /\ refines_proved (Transits 2 true) (mkSk INST 0 9 EMM true false true false true true) = true
   /\ refines_proved_for_all_counts PerRem = true
+  /\ refines_proved (Transits 30 true) (mkSk FO 0 9 EMM true false true false true true) = true
+  /\ step (Transits 30 true) (mkSk FO 0 9 EMM true false true false true true) = SAnom
+  /\ guard (Transits 30 true) (mkSk FO 0 9 EMM true false true false true true) = false
   /\ open_case (Transits 3 true) ex_big = false /\ guard (Transits 0 true) (mkSk FO 33 8 EMIX false true true false true false) = true
   /\ open_case (Transits 0 true) (mkSk FO 33 8 EMIX false true true false true false) = false
   /\ open_case (Transits 3 false) ex_big = false /\ open_case AbsInst ex_big = false /\ refines_proved AbsInst ex_big = true /\ open_case (PerSet 27) ex_big = true
